@@ -7,10 +7,15 @@ VERIF = os.path.dirname(os.path.dirname(os.path.abspath(__file__)))
 ALL = ["C%02d" % i for i in range(1, 21)]
 
 CLAIMED = {
+    "C11": dict(
+        text="PARTIAL. Coq theorems: a teardown invariant (held qubits of a node = |qubitList|, handles live) holds over every application history; StopApp completes and answers Done on error-free applications and leaves no held qubit of the application, for any number of application generations (`C11_stop_restores`); halves handed to the peer survive the creator's stop; `_refuted` witness for a pair creation that fails after its two temporaries exist (known finding). Only the held-qubit count is PROVED to return to baseline; the simulated-qubit and register counts are covered by the count oracle and the dump correspondence (test, not proof). Tie: applications with allocations, frees, pair halves and deliberately failing subroutines at capacities 1..3 over >= 3 generations through the real handler.",
+        design="9.5/C11 (notes/C11.md)",
+        note="Trusted: as C09. Known findings: C11:epr-temporaries (D16 ii), C11:appid-reuse (application id cannot be reused after StopApp; root cause in netqasm's SharedMemoryManager).",
+        technique="Coq proof (teardown invariant over application histories, refutation witness) + vm_compute correspondence + count oracle"),
     "C12": dict(
         text="Coq theorems: may_create topo known self r = true <-> r is a known node, r <> self, and (no topology configured or r is listed among self's neighbours) — directed topologies, nodes absent from the topology, unknown ids; refusal kinds in the order cmd_epr checks them. is_adjacent is regenerated from factory.py on every run and proved equal to the model; the order of the three checks in cmd_epr before the first cmd_new is a generated obligation. Tie: the real NetQASMFactory.is_adjacent / cmd_epr (sentinel cmd_new) over ALL directed topologies on <= 3 nodes x all ordered pairs, random up to 5 nodes.",
         design="9.5/C12 (notes/C12.md)",
-        note="Trusted: Coq kernel; ast translator translate/adjacent.py; the end-to-end clause 'a refused request creates no qubits anywhere' is covered by the NetQASM harness part when present (see notes).",
+        note="Trusted: Coq kernel; ast translator translate/adjacent.py; the end-to-end clause 'a refused request creates no qubits anywhere' is proved as C12_refused_creates_nothing (Properties/C08.v, Qasm/EprGate.v) and exercised by props/c12_e2e.py on the in-process NetQASM hosts.",
         technique="Coq proof (iff decision theorem) + source-to-Coq translator with generated equality lemma + exhaustive small-domain correspondence"),
     "C13": dict(
         text="Coq theorems for all tableau sizes: each of the 8 gate kernels is the Clifford conjugation (sign included) of the Pauli string a row denotes; "
@@ -45,6 +50,16 @@ CLAIMED = {
         design="4/C07",
         note="Trusted: as C05. Concurrent arrivals for the last slot are covered by the PB schedules of C03 when present, not by this sequential model.",
         technique="Coq proof (capacity invariant over fold_left step + iff decision theorems) + vm_compute correspondence"),
+    "C08": dict(
+        text="Coq theorems over the EPR layer model: for every n and EVERY interleaving of creator steps and receiver polls both sides obtain exactly n results whose i-th entries carry equal sequence numbers, opposite directionality, each other's node id and the local socket as purpose id, FIFO per socket; sequence numbers are unique per direction; `C08_seq_unique_refuted`: pairs created in opposite directions on one socket pair collide (known finding D15); after the creator's four native operations the pair register is exactly [XX; ZZ] (stabilizer model, vm_compute); measure-directly outcome table for all 3x3 bases x coins consistent with |Phi+>. Tie: two/three real SubroutineHandlers on the in-process network driven through netqasm.sdk under a seeded scheduler (25% over real PB); ReturnArray contents on both hosts, joint state of the delivered qubits (numpy), FIFO/sequence model compared in Coq.",
+        design="9.5/C08 (notes/C08.md)",
+        note="Trusted: Coq kernel; netqasm SDK/message layer (library code); the keyed (multi-socket) model is tied by correspondence, the pairing theorem is proved for one direction and lifted by the per-key independence argument stated in the notes (not proved).",
+        technique="Coq proof (LTS over all interleavings, finite tables by vm_compute, refutation witness) + vm_compute correspondence with real NetQASM handlers"),
+    "C09": dict(
+        text="Coq theorems over Model N (NetQASM executor on top of Model V): the address chain virtual address -> physical id -> handle is a partial injection preserved by every instruction incl. failing ones; a re-allocated address denotes a fresh qubit; each quantum instruction issues the native operation of the (translated) instruction table on the handle its address denotes, control first; instructions the backend cannot simulate and instructions on unmapped/identical operands are refused with the state unchanged. The instruction table is regenerated from executioner.py on every run and proved equal to the model's. Classical instruction semantics is netqasm library code: compared with an independent Python reference interpreter. Tie: random well-formed subroutines through the real SubroutineHandler; returned messages and node dump after every subroutine.",
+        design="9.5/C09 (notes/C09.md)",
+        note="Trusted: Coq kernel; translate/optable.py; netqasm parser/classical interpreter (not modelled; reference interpreter is the oracle); builds on Model V's tie.",
+        technique="Coq proof (address-chain invariant by induction over instruction lists) + translator with generated table lemmas + vm_compute correspondence"),
     "C10": dict(
         text="Coq theorems over Model F: server-side reassembly for ALL message lists and ALL chunkings of the byte stream (each message handled once, in order, payload cut at the header length, buffer empty at the end; chunking-invariant even for malformed streams; the loop terminates), one Done per handled message, client-side reassembly for any prefix-free codec with the concrete return-message layouts shown prefix-free, byte-stream integrity of the classical socket; `_refuted` theorems with concrete witnesses for what the code violates (reply routed to the last-opened connection; unframed classical socket: coalescing and truncation) — these are listed known findings. Tie: the real NetQASMProtocol / SimulaQronConnection._handle_reply / Socket objects are fed all chunkings (exhaustive for short streams) and compared with the model in Coq.",
         design="9.5/C10 (notes/C10.md)",
